@@ -1,0 +1,13 @@
+//go:build verif
+
+package strings
+
+// Contracts for fvc (see /verif/DESIGN.md). Comment-only file.
+
+//@ pure containsStr(strs []string, s string) bool = exists k int :: 0 <= k && k < len(strs) && strs[k] == s
+
+//@ func ContainsString
+//@   tags C18
+//@   loop 1 invariant -1 <= rangeindex && rangeindex < len(strs)
+//@   loop 1 invariant forall k int :: 0 <= k && k <= rangeindex ==> strs[k] != s
+//@   ensures [C18] result == containsStr(strs, s)
